@@ -604,6 +604,7 @@ func c07Oracle(c *Ctx) func(a *AdmitCase, g AdmitOut) {
 
 func runC08(c *Ctx) {
 	defer c08RealNamespaceGetters(c)
+	defer c08FutureVersions(c)
 	// end to end: mixed reviews (pods and controllers, with and without subresources, many in flight, one after another on
 	// kept-alive connections) through the webhook handler; warnings and audit annotations must be the library's
 	{
@@ -613,7 +614,12 @@ func runC08(c *Ctx) {
 	n := sizes(c, 4000, 80000)
 	k := AdmitKnobs{FaultPct: 0, SynPct: 50, SubPct: 5}
 	r2 := NewRng(c.Seed + 77)
-	c08Oracle = func(a *AdmitCase, g AdmitOut) { c08Check(c, NewRng(c.Seed+78), a, g) }
+	c08Oracle = func(a *AdmitCase, g AdmitOut) {
+		c08Check(c, NewRng(c.Seed+78), a, g)
+		if len(a.Name)%4 == 0 {
+			plainEvaluatorAgrees(c, a, g)
+		}
+	}
 	// a second, directed sweep when the first is done (see the end of this function): pods that MEET restricted and VIOLATE
 	// baseline at the same version — os=windows pods from v1.25 on, with a capability or seccomp setting the restricted
 	// revisions exempt and the baseline controls (overridden at restricted) do not — under every assignment of restricted /
@@ -1280,4 +1286,5 @@ func runC18(c *Ctx) {
 		}
 	}, nil)
 	runC18Recorder(c)
+	c18RecordBeforeRegister(c)
 }
